@@ -117,6 +117,13 @@ theorem gen_order_covers :
     (Gen.C19.orderObserved.filter hasLastWrite).length ≥ 4 ∧
     (Gen.C19.orderObserved.filter fun t => !hasLastWrite t).length ≥ 1 := by decide
 
+/-- `args_parse()` on 7 program names × 6 environment variants × 8 × 8 command-line option pairs (2688 real calls) -/
+theorem gen_args_rows :
+    Gen.C19.argsRows = (List.range 42).map fun j => (List.range 64).map fun i =>
+      (parseArgs (Prog.ofCode (j / 6)) (envVariant (j % 6)).1 (envVariant (j % 6)).2
+        (Opt.ofCode (i / 8) ++ Opt.ofCode (i % 8))).code := by
+  decide +kernel
+
 /-! ## naming: round trip -/
 
 /-- Exact form. If compressing `name` (format `fmt`, optional custom suffix) yields `t`, then decompressing `t` with the
@@ -579,6 +586,83 @@ theorem exit_status_lattice (events : List Status) (noWarn : Bool)
           · exact absurd List.mem_cons_self h1
       cases noWarn <;> simp [h1, h2, hw, finalStatus]
 
+/-! ## how stdout mode is selected (args.c) -/
+
+theorem foldl_applyOpt_flags (l : List Opt) (s : Settings) :
+    ((l.foldl applyOpt s).flags.stdout = (s.flags.stdout || decide (Opt.stdout ∈ l))) ∧
+    ((l.foldl applyOpt s).flags.keep = (s.flags.keep || decide (Opt.keep ∈ l))) ∧
+    ((l.foldl applyOpt s).flags.force = (s.flags.force || decide (Opt.force ∈ l))) := by
+  induction l generalizing s with
+  | nil => simp
+  | cons o rest ih =>
+    rw [List.foldl_cons]
+    have := ih (applyOpt s o)
+    cases o <;> simp [applyOpt] at this ⊢ <;> (obtain ⟨h1, h2, h3⟩ := this; simp [h1, h2, h3])
+
+/-- **stdout_implies_keep.** However stdout mode is selected — `-c`/`--stdout` on the command line, in `XZ_OPT`, in
+    `XZ_DEFAULTS`, by the program name (`xzcat`, `lzcat`), or implicitly by `--test` — the source is kept. -/
+theorem stdout_implies_keep (p : Prog) (envDefaults envOpt cmdline : List Opt) :
+    (parseArgs p envDefaults envOpt cmdline).flags.stdout = true →
+    (parseArgs p envDefaults envOpt cmdline).flags.keep = true := by
+  unfold parseArgs finalizeSettings
+  simp only
+  split <;> simp_all
+
+/-- … and these are all the ways: stdout mode is on iff the program is `xzcat`/`lzcat`, or the stdout option occurs in one
+    of the three option sources, or the final mode is `--test`. -/
+theorem stdout_selected_iff (p : Prog) (envDefaults envOpt cmdline : List Opt) :
+    (parseArgs p envDefaults envOpt cmdline).flags.stdout = true ↔
+      (p = .xzcat ∨ p = .lzcat ∨ Opt.stdout ∈ envDefaults ∨ Opt.stdout ∈ envOpt ∨ Opt.stdout ∈ cmdline ∨
+       (parseArgs p envDefaults envOpt cmdline).mode = .test) := by
+  have hf := (foldl_applyOpt_flags (envDefaults ++ envOpt ++ cmdline) (progDefaults p)).1
+  have hp : (progDefaults p).flags.stdout = true ↔ (p = .xzcat ∨ p = .lzcat) := by cases p <;> simp [progDefaults]
+  unfold parseArgs finalizeSettings
+  simp only
+  split
+  · rename_i h
+    simp only [true_iff]
+    rw [hf] at h
+    simp only [Bool.or_eq_true, decide_eq_true_eq, List.mem_append, beq_iff_eq] at h
+    rcases h with (h | h) | h
+    · rcases hp.mp h with h | h
+      · exact Or.inl h
+      · exact Or.inr (Or.inl h)
+    · rcases h with (h | h) | h
+      · exact Or.inr (Or.inr (Or.inl h))
+      · exact Or.inr (Or.inr (Or.inr (Or.inl h)))
+      · exact Or.inr (Or.inr (Or.inr (Or.inr (Or.inl h))))
+    · exact Or.inr (Or.inr (Or.inr (Or.inr (Or.inr h))))
+  · rename_i h
+    rw [hf] at h ⊢
+    simp only [Bool.or_eq_true, decide_eq_true_eq, List.mem_append, beq_iff_eq, not_or] at h ⊢
+    constructor
+    · intro h'
+      rcases h' with h' | h'
+      · exact absurd h' h.1.1
+      · rcases h' with (h' | h') | h'
+        · exact absurd h' h.1.2.1.1
+        · exact absurd h' h.1.2.1.2
+        · exact absurd h' h.1.2.2
+    · intro h'
+      rcases h' with h' | h' | h' | h' | h' | h'
+      · exact absurd (hp.mpr (Or.inl h')) h.1.1
+      · exact absurd (hp.mpr (Or.inr h')) h.1.1
+      · exact absurd h' h.1.2.1.1
+      · exact absurd h' h.1.2.1.2
+      · exact absurd h' h.1.2.2
+      · exact absurd h' h.2
+
+/-- Outside `--test`, what `args_parse()` hands to file_io.c is `normFlags` of the collected options. -/
+theorem parse_flags_norm (p : Prog) (envDefaults envOpt cmdline : List Opt)
+    (h : (parseArgs p envDefaults envOpt cmdline).mode ≠ .test) :
+    (parseArgs p envDefaults envOpt cmdline).flags =
+      normFlags ((envDefaults ++ envOpt ++ cmdline).foldl applyOpt (progDefaults p)).flags := by
+  unfold parseArgs finalizeSettings normFlags at *
+  generalize (envDefaults ++ envOpt ++ cmdline).foldl applyOpt (progDefaults p) = s at *
+  obtain ⟨m, ⟨so, fo, ke⟩, fm⟩ := s
+  simp only at h ⊢
+  cases m <;> cases so <;> simp_all
+
 /-! ## one file through xz -/
 
 /-- **keep_never_unlinks.** With `--keep` or `--stdout` (args.c turns the latter into the former) the source is never
@@ -750,6 +834,8 @@ example : compressedName .xz (some [0x6c, 0x7a]) [0x61, 0x2e, 0x74] = some [0x61
     uncompressedName .auto (some [0x6c, 0x7a]) [0x61, 0x2e, 0x74, 0x6c, 0x7a] = some ([0x61] ++ sTar) := by decide
 example : BuiltinSpansName [0x61, 0x2e, 0x74] [0x6c, 0x7a] :=
   ⟨(sTlz, sTar), by decide, [0x2e, 0x74], [0x61], by decide, rfl, rfl, by decide⟩
+example : (parseArgs .xzcat [] [] []).flags = ⟨true, false, true⟩ ∧ (parseArgs .xz [] [.stdout] [.force]).flags = ⟨true, true, true⟩ ∧
+    (parseArgs .unxz [] [] []).flags = ⟨false, false, false⟩ ∧ (parseArgs .lzma [] [] []).fmt = .lzma := by decide
 example : srcDecision ⟨.reg, false, false, false, false, 1⟩ ⟨false, false, false⟩ = .ok := by decide
 example : srcDecision ⟨.reg, false, true, false, false, 1⟩ ⟨false, false, false⟩ = .warnSetuidSetgid := by decide
 example : destMode 0o4755 false = 0o755 ∧ destMode 0o4754 true = 0o744 := by decide
